@@ -42,11 +42,15 @@ CHECK = Check(
     post=post,
     rule=("every path made only of struct fields, non-nil pointers and struct-slice indices (Spec/GetSpec.v live_loc) on every value "
           "variant of every emit unit: testing.AllocsPerRun of GetTo, Compare, Length, Capacity, DeepEqual and SetWithBuffer (own-type "
-          "value, pre-sized buffer) at scalar/string/bytes leaves and of Loop at slices - the demand is 0; the import lists of all "
+          "value, pre-sized buffer) at scalar/string/bytes leaves and of Loop at slices, each made with the object handed in as *T and as **T "
+          "(both pointer forms the generated cast accepts) - the demand is 0 in both; by value (T, the third accepted form: the property "
+          "is silent, spec *) the reads are measured on the first element and slice case of every unit and predicted (GetTo 1: the "
+          "reference points into the copy; the others 0); the import lists of all "
           "generated files are scanned (no reflect); liveness of the returned reference is observed in the C01 stream. distinct = "
           "distinct input."),
     assumptions=["allocation is decided by the Go compiler's escape analysis: measured on these cases, not proved",
-                 "the assigned value is boxed once outside the measured call; the path slice is built outside the call"],
+                 "the assigned value is boxed once outside the measured call; the path slice is built outside the call",
+                 "a by-value object is boxed once outside the measured call; SetWithBuffer on a by-value object is not measured"],
 )
 
 MANIFEST = {
